@@ -1,6 +1,10 @@
 import PEval.Lemmas.SensingCrop
 import PEval.Lemmas.SensingBox
 import Mathlib.Tactic.NormNum
+import Mathlib.Tactic.Ring
+import Mathlib.Tactic.FieldSimp
+import PEval.Gen.SensingDT
+import PEval.Model.SensingDT
 /-!
 # C12 — sensing counts exactly the points inside each box; every object classified once
 
@@ -465,5 +469,124 @@ example :
       [⟨0, 0, 0, 0⟩, ⟨5, 5, 0, 1⟩] [[⟨0, 0, 0, 0⟩, ⟨5, 5, 0, 1⟩]]).map
       (fun fr => (fr.warning.map (·.gt), fr.success.map (·.gt), fr.fail.map (·.gt), fr.nonDetection.map (·.map (·.tag))))
       = .ok ([0], [], [1], [[1]]) := by decide +kernel
+
+/-! ## tie to the source: decision tables and expression trees extracted from the real code (regenerated on every run)
+
+`harness/dt_c12.py` runs the REAL `SensingFrameConfig.get_scale_factor` on expression-tree leaves and the REAL
+`SensingFrameResult.evaluate_frame` on stub objects over every assignment of the decision atoms it queries
+(`PEval/Gen/SensingDT.lean`). `SensingDT.frameSkel` is the hand-written skeleton of the model over the same atoms;
+`DT.agree` decides, completely for the finite decision space and by kernel evaluation, that table and skeleton give the
+same result under EVERY valuation. A shape the translator cannot follow has `tree = none` (the statements are vacuous
+for it; the evidence says so and the correspondence runs carry the tie alone). -/
+section Table
+open PEval.DT PEval.SensingDT
+set_option linter.unusedTactic false
+set_option linter.unreachableTactic false
+
+/-- `compare 0 threshold` is asked once per path by the code (for every object whose crop is empty) -/
+def frameSticky : List Nat := [cZeroThr]
+
+def frameTablesOk : Bool :=
+  Gen.SensingDT.tables.all fun row =>
+    match row.2.2 with
+    | some t => agree [] frameSticky t (frameSkel row.1 row.2.1) PA.empty
+    | none => true
+
+/-- THE per-run obligation: the checker accepts every regenerated table -/
+theorem frame_table_check : frameTablesOk = true := by decide +kernel
+
+/-- the code's decision table of `evaluate_frame` (every tabulated shape) equals the model's skeleton under every
+valuation of the atoms -/
+theorem frame_code_table_eq_model :
+    ∀ row ∈ Gen.SensingDT.tables, ∀ t, row.2.2 = some t → ∀ v : Val, eval t v = frameAtoms row.1 row.2.1 v := by
+  intro row hrow t ht v
+  have h := frame_table_check
+  unfold frameTablesOk at h
+  rw [List.all_eq_true] at h
+  have h2 := h row hrow
+  rw [ht] at h2
+  rw [agree_sound h2 v (by simp [consistent]), eval_frameSkel]
+
+/-- the model's per-object result used by the bridge is the one of the frame theorems above -/
+theorem sresOf_eq_sres (cfg : Cfg) (cols : Nat) (cloud : List Pt) (o : Obj) : sresOf cfg cols cloud o = sres cfg cols cloud o := rfl
+
+/-- the CODE's table, read at the atoms of a concrete input, is the number computed from the MODEL's results:
+per object (in object order) the container `classify` chooses, `isDetected`, presence of a nearest point; per
+non-detection cloud whether it is reported -/
+theorem frame_code_table_eq_modelCode :
+    ∀ row ∈ Gen.SensingDT.tables, ∀ t, row.2.2 = some t →
+      ∀ (cfg : Cfg) (cols : Nat) (cloud : List Pt) (objs : List Obj) (rest : List (List Pt)),
+        objs.length = row.1 → rest.length = row.2.1 → objs.length ≤ 50 →
+        eval t (valuationOf cfg cols cloud objs rest) = .other (modelCode cfg cols cloud objs rest) := by
+  intro row hrow t ht cfg cols cloud objs rest hn hk hl
+  rw [frame_code_table_eq_model row hrow t ht, ← hn, ← hk]
+  exact frameAtoms_valuationOf cfg cols cloud objs rest hl
+
+/-- what a digit says -/
+theorem objDigit_spec (r : SRes) :
+    (objDigit r % 3 = 0 ↔ classify r = .warning) ∧ (objDigit r % 3 = 1 ↔ classify r = .success) ∧
+    (objDigit r % 3 = 2 ↔ classify r = .fail) ∧ ((objDigit r / 3) % 2 = 1 ↔ r.isDetected = true) ∧
+    (6 ≤ objDigit r ↔ r.num ≠ 0) := by
+  unfold objDigit digit classify
+  have hn : (r.num != 0) = true ↔ r.num ≠ 0 := by simp
+  rw [← hn]
+  cases r.isOccluded <;> cases r.isDetected <;> cases (r.num != 0) <;> decide
+
+/-- C12 for the code's table, one object: the table's answer is the digit of the model's result, whose
+`is_detected` bit is set exactly when the number of points inside the scaled box reaches the threshold, and whose
+container is `warning` exactly for a fully occluded object -/
+theorem table_single_object {t : DTree} (ht : (1, 0, some t) ∈ Gen.SensingDT.tables)
+    (cfg : Cfg) (cols : Nat) (cloud : List Pt) (o : Obj) :
+    eval t (valuationOf cfg cols cloud [o] []) = .other (objDigit (sres cfg cols cloud o) + 1) ∧
+    ((objDigit (sres cfg cols cloud o) / 3) % 2 = 1 ↔
+      ((cropInside cols cloud (boxCorners o.box (scaleFactor cfg o.dist))).length : Int) ≥ cfg.minPoints) ∧
+    (objDigit (sres cfg cols cloud o) % 3 = 0 ↔ isNone o.visibility = true) := by
+  refine ⟨?_, ?_, ?_⟩
+  · rw [frame_code_table_eq_modelCode _ ht t rfl cfg cols cloud [o] [] rfl rfl (by simp)]
+    simp [modelCode, digitsCode, flagsCode, sresOf_eq_sres]
+  · rw [(objDigit_spec _).2.2.2.1]; simp [sres]
+  · rw [(objDigit_spec _).1]
+    cases h : isNone o.visibility
+    · simp only [classify, sres, h]
+      by_cases hc : cfg.minPoints ≤ ((cropInside cols cloud (boxCorners o.box (scaleFactor cfg o.dist))).length : Int) <;>
+        simp [hc]
+    · simp [classify, sres, h]
+
+/-- without objects a non-detection cloud is reported exactly when it is non-empty (the statement the seeded early
+`return` of `evaluate_frame` breaks) -/
+theorem table_no_objects {t : DTree} (ht : (0, 1, some t) ∈ Gen.SensingDT.tables)
+    (cfg : Cfg) (cols : Nat) (cloud : List Pt) (c : List Pt) :
+    eval t (valuationOf cfg cols cloud [] [c]) = .other (if c.length = 0 then 0 else 13 ^ 4) := by
+  rw [frame_code_table_eq_modelCode _ ht t rfl cfg cols cloud [] [c] rfl rfl (by simp)]
+  by_cases h : c.length = 0 <;> simp [modelCode, digitsCode, flagsCode, ndWeight, h]
+
+/-- `get_scale_factor` run on symbolic leaves, and the scale `evaluate_frame` hands to `crop_pointcloud`, are the
+model's `scaleFactor` as rational functions of (distance, box_scale_0m, box_scale_100m) -/
+theorem scaleFactor_code_eq_model (cfg : Cfg) (d : ℚ) :
+    Gen.SensingDT.scaleFactorGen d cfg.scale0 cfg.scale100 = scaleFactor cfg d ∧
+    Gen.SensingDT.cropScaleGen d cfg.scale0 cfg.scale100 = scaleFactor cfg d := by
+  unfold Gen.SensingDT.scaleFactorGen Gen.SensingDT.cropScaleGen scaleFactor
+  constructor <;> first | ring1 | (field_simp; ring1) | field_simp
+
+/-- the code's expression: `box_scale_0m` at 0 m, `box_scale_100m` at 100 m, one linear law in the distance -/
+theorem scaleFactor_code_spec (s0 s100 : ℚ) :
+    Gen.SensingDT.scaleFactorGen 0 s0 s100 = s0 ∧ Gen.SensingDT.scaleFactorGen 100 s0 s100 = s100 ∧
+    (∀ d e : ℚ, Gen.SensingDT.scaleFactorGen (d + e) s0 s100 - Gen.SensingDT.scaleFactorGen d s0 s100 = (s100 - s0) / 100 * e) ∧
+    (∀ d : ℚ, 100 < d → s0 < s100 → s100 < Gen.SensingDT.scaleFactorGen d s0 s100) := by
+  have h := fun d => (scaleFactor_code_eq_model ⟨none, s0, s100, 0⟩ d).1
+  simp only [] at h
+  obtain ⟨e0, e100, _, _⟩ := scaleFactor_spec ⟨none, s0, s100, 0⟩
+  obtain ⟨l1, _, _, l4, _⟩ := scaleFactor_linear ⟨none, s0, s100, 0⟩
+  refine ⟨by rw [h]; exact e0, by rw [h]; exact e100, fun d e => by rw [h, h]; exact l1 d e,
+    fun d hd hs => by rw [h]; exact l4 hs d hd⟩
+
+/-- non-vacuity: the skeleton on concrete atoms (one object, 3 points inside, threshold 2, visible → success,
+detected, nearest point present: digit 1+3+6, code 11), and the checker distinguishes skeletons -/
+example : frameAtoms 1 0 (valuationOf ⟨none, 1, 1, 2⟩ 3 [⟨0, 0, 0, 0⟩, ⟨1/2, 0, 0, 1⟩, ⟨0, 1/2, 0, 2⟩]
+    [⟨0, none, yawBox 0 0 0 1 0 2 2 2, 0, none⟩] []) = .other 11 := by decide +kernel
+example : agree [] frameSticky (frameSkel 2 0) (frameSkel 2 0) PA.empty = true := by decide +kernel
+example : agree [] frameSticky (frameSkel 1 0) (frameSkel 1 1) PA.empty = false := by decide +kernel
+
+end Table
 
 end PEval.C12
